@@ -452,6 +452,46 @@ pub fn step(st: &mut DualState, t: &[&str]) -> Option<String> {
                 "refused",
             )
         }
+        // the same comparisons through the generic `Number` container's own impls
+        ["ncmp", op, i, j] => {
+            let a = st.vals.get(&i.parse().ok()?)?;
+            let b = st.vals.get(&j.parse().ok()?)?;
+            guarded(|| (cmp_nums(op, a, b) as u8).to_string(), "refused")
+        }
+        ["ncmpf", op, i, x] => {
+            let a = st.vals.get(&i.parse().ok()?)?;
+            let x = pf(x)?;
+            guarded(
+                || {
+                    let r = match *op {
+                        "eq" => *a == x,
+                        "lt" => *a < x,
+                        "gt" => *a > x,
+                        "le" => *a <= x,
+                        _ => *a >= x,
+                    };
+                    (r as u8).to_string()
+                },
+                "refused",
+            )
+        }
+        ["fncmp", op, x, i] => {
+            let a = st.vals.get(&i.parse().ok()?)?;
+            let x = pf(x)?;
+            guarded(
+                || {
+                    let r = match *op {
+                        "eq" => x == *a,
+                        "lt" => x < *a,
+                        "gt" => x > *a,
+                        "le" => x <= *a,
+                        _ => x >= *a,
+                    };
+                    (r as u8).to_string()
+                },
+                "refused",
+            )
+        }
         ["un", op, i] => {
             let a = st.vals.get(&i.parse().ok()?)?;
             guarded(|| un_op(op, a).map(|v| fmt_num(&v)).unwrap_or("bad-op".into()), "panic")
@@ -917,6 +957,7 @@ pub fn gen_c18<W: Write>(out: &mut W, thorough: bool, seed: u64) {
                 }
                 for op in ["eq", "ne", "lt", "le", "gt", "ge"] {
                     writeln!(out, "cmp {} {} {}", op, i, j).unwrap();
+                    writeln!(out, "ncmp {} {} {}", op, i, j).unwrap();
                 }
             }
             for x in [0.5, -2.0, 3.0] {
@@ -927,6 +968,8 @@ pub fn gen_c18<W: Write>(out: &mut W, thorough: bool, seed: u64) {
                 for op in ["eq", "lt", "le", "gt", "ge"] {
                     writeln!(out, "cmpf {} {} {}", op, i, hf(x)).unwrap();
                     writeln!(out, "fcmp {} {} {}", op, hf(x), i).unwrap();
+                    writeln!(out, "ncmpf {} {} {}", op, i, hf(x)).unwrap();
+                    writeln!(out, "fncmp {} {} {}", op, hf(x), i).unwrap();
                 }
             }
             for ord in 0..3 {
@@ -969,6 +1012,13 @@ pub fn gen_c19<W: Write>(out: &mut W, thorough: bool, seed: u64) {
         for op in ["eq", "lt", "le", "gt", "ge"] {
             writeln!(out, "cmpf {} 1 {}", op, hf(x)).unwrap();
             writeln!(out, "fcmp {} {} 2", op, hf(x)).unwrap();
+            // through the Number container, at the operands' own values too (ties) and on both sides
+            writeln!(out, "ncmpf {} 1 {}", op, hf(x)).unwrap();
+            writeln!(out, "fncmp {} {} 2", op, hf(x)).unwrap();
+            writeln!(out, "fncmp {} {} 1", op, hf(x)).unwrap();
+        }
+        for op in ["eq", "ne", "lt", "le", "gt", "ge"] {
+            writeln!(out, "ncmp {} 1 2", op).unwrap();
         }
         writeln!(out, "un abs 1").unwrap();
         writeln!(out, "un abs 2").unwrap();
